@@ -218,4 +218,380 @@ theorem doAfter_wakes (s : State) (t t' : Tid) (c : Cid) (n : Next) (p : Point) 
   | ret r => simp only []; rw [thread_setThread_ne _ _ _ _ (Ne.symm hne)]; exact hb
   | recv2 b => simp only []; rw [thread_setThread_ne _ _ _ _ (Ne.symm hne)]; exact hb
 
+/-! ### what a step does, in the detail the wait invariant needs -/
+
+theorem exec_at_detail (s : State) (t : Tid) (p : Point) (ht : t < s.threads.length) (hpc : (s.thread t).pc = .at p) :
+    (exec s t).chans = s.chans.set p.chan (body p t (s.chan p.chan)).ch ∧
+    (∀ q, ((exec s t).thread t).pc = .at q → q.isWait = true →
+      (body p t (s.chan p.chan)).out = .wait q ∨ (body p t (s.chan p.chan)).out = .notify (.wait q)) ∧
+    (∀ n, (body p t (s.chan p.chan)).out = .notify (.finish true n) →
+      (∃ l, ((exec s t).thread t).pc = .notify p.chan l (.finish true n)) ∨
+      (∀ t' p', t' ≠ t → (s.thread t').pc = .at p' → p'.isWait = true → p'.chan = p.chan →
+        ((exec s t).thread t').waiting = false)) ∧
+    (∀ c l k, ((exec s t).thread t).pc = .notify c l k → (body p t (s.chan p.chan)).out = .notify k) := by
+  unfold exec
+  simp only [hpc]
+  generalize hr : body p t (s.chan p.chan) = r
+  let s2 := applyDeliver ((s.setChan p.chan r.ch).setOwner p.chan (some t)) r.deliver
+  have e2 : Eff s s2 t p.chan :=
+    ((eff_setChan s t p.chan p.chan r.ch).trans (eff_setOwner _ t p.chan (some t))).trans (eff_applyDeliver _ t p.chan _)
+  have hl2 : t < s2.threads.length := by rw [e2.tlen]; exact ht
+  have hch2 : s2.chans = s.chans.set p.chan r.ch := by simp [s2]
+  show (match r.out with
+      | .wait p' => (s2.setOwner p.chan none).setThread t { s2.thread t with pc := .at p', waiting := true }
+      | .notify k => doNotify s2 t p.chan k
+      | .unlock ret => (s2.setOwner p.chan none).setThread t (onRet (s2.thread t) ret)
+      | .panic => (s2.setOwner p.chan none).setThread t
+          { s2.thread t with pc := .done, ops := [], sel := none, res := (s2.thread t).res ++ [Res.panic] }).chans = _ ∧ _
+  cases r.out with
+  | wait p' =>
+    refine ⟨by simp [hch2], fun q hq _ => ?_, fun n hn => (by cases hn), fun c l k hk => ?_⟩
+    · rw [thread_setThread_self _ _ _ (by simpa using hl2)] at hq
+      cases hq; left; rfl
+    · rw [thread_setThread_self _ _ _ (by simpa using hl2)] at hk
+      cases hk
+  | notify k =>
+    refine ⟨by simp [hch2], fun q hq hw => ?_, fun n hn => ?_, fun c l k' hk => ?_⟩
+    rotate_left 2
+    · dsimp only at hk
+      unfold doNotify at hk
+      split at hk
+      · exfalso
+        have := (doAfter_eff s2 t p.chan k hl2).2 c
+        rw [hk] at this
+        simp [PC.inCS] at this
+      · rw [thread_setThread_self _ _ _ hl2] at hk
+        cases hk; rfl
+    · right
+      dsimp only at hq
+      unfold doNotify at hq
+      split at hq
+      · rw [doAfter_self s2 t p.chan k hl2 q hq hw]
+      · exfalso
+        rw [thread_setThread_self _ _ _ hl2] at hq; cases hq
+    · cases hn
+      dsimp only
+      unfold doNotify
+      split
+      · right
+        intro t' p' hne hp' hw' hc'
+        exact doAfter_wakes s2 t t' p.chan n p' hne (by rw [e2.pcs t' hne]; exact hp') hw' hc'
+      · rename_i l _
+        left
+        exact ⟨_, by rw [thread_setThread_self _ _ _ hl2]⟩
+  | unlock ret =>
+    refine ⟨by simp [hch2], fun q hq hw => ?_, fun n hn => (by cases hn), fun c l k hk => ?_⟩
+    · exfalso
+      rw [thread_setThread_self _ _ _ (by simpa using hl2)] at hq
+      have := onRet_notWaitPt (s2.thread t) ret
+      rw [hq] at this
+      simp [PC.isWaitPt, hw] at this
+    · exfalso
+      rw [thread_setThread_self _ _ _ (by simpa using hl2)] at hk
+      have := onRet_notCS (s2.thread t) ret c
+      rw [hk] at this
+      simp [PC.inCS] at this
+  | panic =>
+    refine ⟨by simp [hch2], fun q hq hw => ?_, fun n hn => (by cases hn), fun c l k hk => ?_⟩
+    · rw [thread_setThread_self _ _ _ (by simpa using hl2)] at hq
+      cases hq
+    · rw [thread_setThread_self _ _ _ (by simpa using hl2)] at hk
+      cases hk
+
+theorem exec_notify_detail (s : State) (t : Tid) (c : Cid) (rest : List Tid) (k : After) (ht : t < s.threads.length)
+    (hpc : (s.thread t).pc = .notify c rest k) :
+    (exec s t).chans = s.chans ∧
+    ((∃ l, ((exec s t).thread t).pc = .notify c l k) ∨
+     ((∀ q, ((exec s t).thread t).pc = .at q → q.isWait = true → k = .wait q) ∧
+      (∀ n, k = .finish true n → ∀ t' p', t' ≠ t → (s.thread t').pc = .at p' → p'.isWait = true → p'.chan = c →
+        ((exec s t).thread t').waiting = false))) ∧
+    (∀ c' l k', ((exec s t).thread t).pc = .notify c' l k' → k' = k) := by
+  unfold exec
+  simp only [hpc]
+  cases rest with
+  | nil =>
+    refine ⟨by simp, Or.inr ⟨fun q hq hw => doAfter_self s t c k ht q hq hw, fun n hn t' p' hne hp' hw' hc' => ?_⟩, fun c' l k' hk => ?_⟩
+    · subst hn
+      exact doAfter_wakes s t t' c n p' hne hp' hw' hc'
+    · exfalso
+      have := (doAfter_eff s t c k ht).2 c'
+      rw [hk] at this
+      simp [PC.inCS] at this
+  | cons x xs =>
+    have e1 : Eff s (s.setThread x (notifyThread (s.thread x))) t c :=
+      eff_setThread_same s x t c _ rfl (fun h => by
+        simp only [notifyThread] at h
+        split at h
+        · cases h
+        · exact h)
+    have hl1 : t < (s.setThread x (notifyThread (s.thread x))).threads.length := by rw [e1.tlen]; exact ht
+    cases xs with
+    | nil =>
+      refine ⟨by simp, Or.inr ⟨fun q hq hw => doAfter_self _ t c k hl1 q hq hw, fun n hn t' p' hne hp' hw' hc' => ?_⟩, fun c' l k' hk => ?_⟩
+      · subst hn
+        exact doAfter_wakes _ t t' c n p' hne (by rw [e1.pcs t' hne]; exact hp') hw' hc'
+      · exfalso
+        have := (doAfter_eff _ t c k hl1).2 c'
+        rw [hk] at this
+        simp [PC.inCS] at this
+    | cons y ys =>
+      refine ⟨by simp, Or.inl ⟨y :: ys, ?_⟩, fun c' l k' hk => ?_⟩
+      · rw [thread_setThread_self _ _ _ hl1]
+      · rw [thread_setThread_self _ _ _ hl1] at hk
+        cases hk; rfl
+
+theorem exec_other_detail (s : State) (t : Tid) (ht : t < s.threads.length)
+    (h1 : ∀ p, (s.thread t).pc ≠ .at p) (h2 : ∀ c r k, (s.thread t).pc ≠ .notify c r k) :
+    (exec s t).chans = s.chans ∧ ((exec s t).thread t).pc.isWaitPt = false ∧
+    (∀ t', t' ≠ t → ((exec s t).thread t').waiting = (s.thread t').waiting) := by
+  unfold exec
+  dsimp only
+  cases hpc : (s.thread t).pc with
+  | «at» p => exact absurd hpc (h1 p)
+  | notify c r k => exact absurd hpc (h2 c r k)
+  | done => exact ⟨rfl, by rw [hpc]; rfl, fun _ _ => rfl⟩
+  | start =>
+    refine ⟨rfl, ?_, fun t' h => by rw [thread_setThread_ne _ _ _ _ (Ne.symm h)]⟩
+    rw [thread_setThread_self _ _ _ ht]; exact startOps_notWaitPt _ _
+  | selLock =>
+    dsimp only
+    split
+    · split
+      · refine ⟨rfl, ?_, fun t' h => by rw [thread_setThread_ne _ _ _ _ (Ne.symm h)]⟩
+        rw [thread_setThread_self _ _ _ ht]; exact pollFrom_notWaitPt _ _ _ _
+      · exact ⟨rfl, by rw [hpc]; rfl, fun _ _ => rfl⟩
+    · refine ⟨rfl, ?_, fun t' h => by rw [thread_setThread_ne _ _ _ _ (Ne.symm h)]⟩
+      rw [thread_setThread_self _ _ _ ht]; rfl
+  | selWait =>
+    dsimp only
+    split
+    · refine ⟨rfl, ?_, fun t' h => by rw [thread_setThread_ne _ _ _ _ (Ne.symm h)]⟩
+      rw [thread_setThread_self _ _ _ ht]; exact pollFrom_notWaitPt _ _ _ _
+    · exact ⟨rfl, by rw [hpc]; rfl, fun _ _ => rfl⟩
+
+/-! ### the wait invariant -/
+
+/-- a `Broadcast` on channel `c` is pending: some thread is inside `notifyOps(c)` on its way to `Unlock; Broadcast` -/
+def Busy (s : State) (c : Cid) : Prop :=
+  ∃ t0 rest n, (s.thread t0).pc = .notify c rest (.finish true n)
+
+structure WaitInv (s : State) : Prop where
+  /-- a thread asleep in a buffered wait loop: its wait condition still holds, or a broadcast is pending -/
+  cond : ∀ t p, (s.thread t).pc = .at p → (s.thread t).waiting = true → p.chan < s.owner.length →
+    waitCond p (s.chan p.chan) ∨ Busy s p.chan
+  /-- `notifyOps` followed by `Wait` only occurs in the unbuffered loop of `ChanSend` -/
+  nwait : ∀ t c rest q, (s.thread t).pc = .notify c rest (.wait q) → q.isWaitB = false
+
+theorem chan_after_set (s s' : State) (c0 : Cid) (ch' : Chan) (h : s'.chans = s.chans.set c0 ch') (c : Cid) :
+    s'.chan c = s.chan c ∨ (c = c0 ∧ s'.chan c = ch') := by
+  unfold State.chan
+  rw [h]
+  by_cases hc : c0 = c
+  · subst hc
+    by_cases hl : c0 < s.chans.length
+    · right; exact ⟨rfl, getD_set_self _ _ _ _ hl⟩
+    · left
+      have hle : s.chans.length ≤ c0 := Nat.le_of_not_lt hl
+      rw [List.set_eq_of_length_le hle]
+  · left; exact getD_set_other _ _ _ _ _ hc
+
+theorem not_busy_of_free {s : State} {c : Cid} (hm : MutexInv s) (hc : c < s.owner.length) (hf : s.own c = none) :
+    ¬ Busy s c := by
+  rintro ⟨t0, rest, n, hb⟩
+  have := hm t0 c (by rw [hb]; simp [PC.inCS]) hc
+  rw [hf] at this
+  cases this
+
+theorem exec_waitInv {s : State} {t : Tid} (h : WaitInv s) (hm : MutexInv s) (hr : runnable s t = true) :
+    WaitInv (exec s t) := by
+  have ht := runnable_lt hr
+  by_cases hp : ∃ p0, (s.thread t).pc = .at p0
+  · obtain ⟨p0, hpc⟩ := hp
+    obtain ⟨e, _⟩ := exec_at s t p0 ht hpc
+    obtain ⟨hch, hself, hbc, hnk⟩ := exec_at_detail s t p0 ht hpc
+    have hfree := runnable_free hr hpc
+    have hcap := body_cap p0 t (s.chan p0.chan)
+    constructor
+    · intro t' p hpc' hw' hlen
+      rw [e.olen] at hlen
+      by_cases hB' : p.isWaitB = false
+      · left; exact waitCond_of_not_B _ _ hB'
+      have hB : p.isWaitB = true := by simpa using hB'
+      have hpw := isWait_of_isWaitB p hB
+      by_cases htt : t' = t
+      · rw [htt] at hpc' hw'
+        rcases hself p hpc' hpw with ho | ho
+        · obtain ⟨hc, hcond⟩ := body_wait p0 p t _ ho
+          left
+          have hq : ∀ n, (body p0 t (s.chan p0.chan)).out ≠ .notify (.finish true n) := by
+            intro n hn; rw [ho] at hn; cases hn
+          have hlen' := body_quiet_len p0 t _ hq
+          rcases chan_after_set s _ p0.chan _ hch p.chan with e1 | ⟨_, e1⟩
+          · rw [e1, hc]; exact hcond
+          · rw [e1]; exact waitCond_congr p _ _ hlen' hcap hcond
+        · obtain ⟨_, hnb⟩ := body_notify_wait p0 p t _ ho
+          rw [hnb] at hB; cases hB
+      · have hpc_s : (s.thread t').pc = .at p := by rw [← e.pcs t' htt]; exact hpc'
+        have hw_s := e.wts t' htt hw'
+        by_cases hc : p.chan = p0.chan
+        · have hnb : ¬ Busy s p.chan := by
+            rw [hc]; exact not_busy_of_free hm (hc ▸ hlen) hfree
+          have hcond : waitCond p (s.chan p.chan) := (h.cond t' p hpc_s hw_s hlen).resolve_right hnb
+          by_cases hq : ∃ n, (body p0 t (s.chan p0.chan)).out = .notify (.finish true n)
+          · obtain ⟨n, hn⟩ := hq
+            rcases hbc n hn with ⟨l, hl⟩ | hwk
+            · right; rw [hc]; exact ⟨t, l, n, hl⟩
+            · exfalso
+              have := hwk t' p htt hpc_s hpw hc
+              rw [this] at hw'; cases hw'
+          · left
+            have hq' : ∀ n, (body p0 t (s.chan p0.chan)).out ≠ .notify (.finish true n) := fun n hn => hq ⟨n, hn⟩
+            have hlen' := body_quiet_len p0 t _ hq'
+            rcases chan_after_set s _ p0.chan _ hch p.chan with e1 | ⟨_, e1⟩
+            · rw [e1]; exact hcond
+            · rw [e1]; rw [hc] at hcond; exact waitCond_congr p _ _ hlen' hcap hcond
+        · have e1 : (exec s t).chan p.chan = s.chan p.chan := by
+            rcases chan_after_set s _ p0.chan _ hch p.chan with e1 | ⟨e0, _⟩
+            · exact e1
+            · exact absurd e0 hc
+          rw [e1]
+          rcases h.cond t' p hpc_s hw_s hlen with hcnd | ⟨t0, rest, n, hb⟩
+          · left; exact hcnd
+          · right
+            have hne : t0 ≠ t := by
+              intro e0; rw [e0, hpc] at hb; cases hb
+            exact ⟨t0, rest, n, by rw [e.pcs t0 hne]; exact hb⟩
+    · intro t1 c rest q hk
+      by_cases htt : t1 = t
+      · rw [htt] at hk
+        exact (body_notify_wait p0 q t _ (hnk c rest (.wait q) hk)).2
+      · rw [e.pcs t1 htt] at hk; exact h.nwait t1 c rest q hk
+  · by_cases hn : ∃ c0 r k, (s.thread t).pc = .notify c0 r k
+    · obtain ⟨c0, rest0, k0, hpc⟩ := hn
+      obtain ⟨e, _⟩ := exec_notify s t c0 rest0 k0 ht hpc
+      obtain ⟨hch, hstep, hk'⟩ := exec_notify_detail s t c0 rest0 k0 ht hpc
+      have hchan : ∀ c, (exec s t).chan c = s.chan c := fun c => by unfold State.chan; rw [hch]
+      constructor
+      · intro t' p hpc' hw' hlen
+        rw [e.olen] at hlen
+        by_cases hB' : p.isWaitB = false
+        · left; exact waitCond_of_not_B _ _ hB'
+        have hB : p.isWaitB = true := by simpa using hB'
+        have hpw := isWait_of_isWaitB p hB
+        by_cases htt : t' = t
+        · exfalso
+          rw [htt] at hpc'
+          rcases hstep with ⟨l, hl⟩ | ⟨hs, _⟩
+          · rw [hl] at hpc'; cases hpc'
+          · have hk0 := hs p hpc' hpw
+            rw [hk0] at hpc
+            have := h.nwait t c0 rest0 p hpc
+            rw [this] at hB; cases hB
+        · have hpc_s : (s.thread t').pc = .at p := by rw [← e.pcs t' htt]; exact hpc'
+          have hw_s := e.wts t' htt hw'
+          rw [hchan]
+          rcases h.cond t' p hpc_s hw_s hlen with hcnd | ⟨t0, rest, n, hb⟩
+          · left; exact hcnd
+          · by_cases h0 : t0 = t
+            · rw [h0, hpc] at hb
+              injection hb with hc0 _ hk0
+              rcases hstep with ⟨l, hl⟩ | ⟨_, hwk⟩
+              · right; exact ⟨t, l, n, by rw [hl, hc0, hk0]⟩
+              · exfalso
+                have := hwk n hk0 t' p htt hpc_s hpw hc0.symm
+                rw [this] at hw'; cases hw'
+            · right; exact ⟨t0, rest, n, by rw [e.pcs t0 h0]; exact hb⟩
+      · intro t1 c rest q hk
+        by_cases htt : t1 = t
+        · rw [htt] at hk
+          have := hk' c rest (.wait q) hk
+          rw [← this] at hpc
+          exact h.nwait t c0 rest0 q hpc
+        · rw [e.pcs t1 htt] at hk; exact h.nwait t1 c rest q hk
+    · have h1 : ∀ p, (s.thread t).pc ≠ .at p := fun p hp' => hp ⟨p, hp'⟩
+      have h2 : ∀ c0 r k, (s.thread t).pc ≠ .notify c0 r k := fun c0 r k hn' => hn ⟨c0, r, k, hn'⟩
+      obtain ⟨hpcs, hown, hnot⟩ := exec_other s t ht h1 h2
+      obtain ⟨hch, hnw, hwt⟩ := exec_other_detail s t ht h1 h2
+      have hchan : ∀ c, (exec s t).chan c = s.chan c := fun c => by unfold State.chan; rw [hch]
+      constructor
+      · intro t' p hpc' hw' hlen
+        rw [hown] at hlen
+        by_cases hB' : p.isWaitB = false
+        · left; exact waitCond_of_not_B _ _ hB'
+        have hB : p.isWaitB = true := by simpa using hB'
+        have hpw := isWait_of_isWaitB p hB
+        by_cases htt : t' = t
+        · exfalso
+          rw [htt] at hpc'
+          rw [hpc'] at hnw
+          simp [PC.isWaitPt, hpw] at hnw
+        · have hpc_s : (s.thread t').pc = .at p := by rw [← hpcs t' htt]; exact hpc'
+          have hw_s : (s.thread t').waiting = true := by rw [← hwt t' htt]; exact hw'
+          rw [hchan]
+          rcases h.cond t' p hpc_s hw_s hlen with hcnd | ⟨t0, rest, n, hb⟩
+          · left; exact hcnd
+          · right
+            have hne : t0 ≠ t := by
+              intro e0; rw [e0] at hb; exact h2 _ _ _ hb
+            exact ⟨t0, rest, n, by rw [hpcs t0 hne]; exact hb⟩
+      · intro t1 c rest q hk
+        by_cases htt : t1 = t
+        · exfalso
+          rw [htt] at hk
+          have := hnot c
+          rw [hk] at this
+          simp [PC.inCS] at this
+        · rw [hpcs t1 htt] at hk; exact h.nwait t1 c rest q hk
+
+theorem init_waitInv (caps : List Nat) (progs : List (List Op)) : WaitInv (init caps progs) := by
+  have hpc : ∀ t, ((init caps progs).thread t).pc = .start ∨ ((init caps progs).thread t).pc = .done := by
+    intro t
+    simp only [State.thread, init, List.getD, List.getElem?_map]
+    cases progs[t]? <;> simp [dfltThread]
+  constructor
+  · intro t p h
+    rcases hpc t with e | e <;> rw [e] at h <;> cases h
+  · intro t c rest q h
+    rcases hpc t with e | e <;> rw [e] at h <;> cases h
+
+theorem wake_waitInv {s : State} (h : WaitInv s) (t : Tid) :
+    WaitInv (s.setThread t { s.thread t with waiting := false }) := by
+  have hpcs : ∀ t', ((s.setThread t { s.thread t with waiting := false }).thread t').pc = (s.thread t').pc :=
+    fun t' => pc_setThread_same s t t' _ rfl
+  have hw : ∀ t', ((s.setThread t { s.thread t with waiting := false }).thread t').waiting = true →
+      (s.thread t').waiting = true := by
+    intro t' w
+    rcases thread_setThread_cases s t t' { s.thread t with waiting := false } with e | e
+    · rw [e] at w; cases w
+    · rwa [e] at w
+  constructor
+  · intro t' p hp hwt hlen
+    rw [hpcs] at hp
+    rcases h.cond t' p hp (hw t' hwt) hlen with hc | ⟨t0, rest, n, hb⟩
+    · left; exact hc
+    · right; exact ⟨t0, rest, n, by rw [hpcs]; exact hb⟩
+  · intro t1 c rest q hk
+    rw [hpcs] at hk
+    exact h.nwait t1 c rest q hk
+
+theorem apply_waitInv {s s' : State} (h : WaitInv s) (hm : MutexInv s) (ch : Choice) (hs : apply s ch = some s') :
+    WaitInv s' := by
+  cases ch with
+  | step t =>
+    simp only [apply, step] at hs
+    split at hs
+    · rename_i hr; cases hs; exact exec_waitInv h hm hr
+    · cases hs
+  | wake t =>
+    simp only [apply, wake] at hs
+    split at hs
+    · cases hs; exact wake_waitInv h t
+    · cases hs
+
+theorem reachable_waitInv {caps : List Nat} {progs : List (List Op)} {s : State}
+    (h : Reachable (init caps progs) s) : WaitInv s ∧ MutexInv s := by
+  induction h with
+  | init => exact ⟨init_waitInv caps progs, init_mutexInv caps progs⟩
+  | next ch _ hs ih => exact ⟨apply_waitInv ih.1 ih.2 ch hs, apply_mutexInv ih.2 ch hs⟩
+
 end LlgoVerif.Chan
